@@ -166,7 +166,12 @@ def lang_plan(ctx, props, san=False, extra_rule="", syntax=False, sample_m=0):
         ctx.replay("Gen_Syntax.tla", "Gen_Syntax.cfg", h, ["--props", ",".join(props)], tag=pre + "Gen_Syntax", timeout=1500, xss="64m")
     ctx.replay("Gen_Lang.tla", "Gen_Lang_q.cfg", h, ["--props", ",".join(props)], tag=pre + "Gen_Lang_q", timeout=1500, xss="64m", xmx="12g")
     if not ctx.quick:
-        ctx.replay("Gen_Lang.tla", "Gen_Lang_m.cfg", h, ["--props", ",".join(props)], tag=pre + "Gen_Lang_m", timeout=3400, xss="64m", xmx="12g")
+        if san:
+            # thorough with sanitizers: every two-constructor tree in the release build, a 1-in-8 hash sample of them under ASan+UBSan
+            ctx.replay("Gen_Lang.tla", "Gen_Lang_m.cfg", hbin(vcore.build(), "h_lang"), ["--props", ",".join(props)], tag="Gen_Lang_m", timeout=3400, xss="64m", xmx="12g")
+            ctx.replay("Gen_Lang.tla", "Gen_Lang_m.cfg", h, ["--props", ",".join(props), "--sample", "8"], tag=pre + "sample-Gen_Lang_m", timeout=3400, xss="64m", xmx="12g")
+        else:
+            ctx.replay("Gen_Lang.tla", "Gen_Lang_m.cfg", h, ["--props", ",".join(props)], tag=pre + "Gen_Lang_m", timeout=3400, xss="64m", xmx="12g")
     elif sample_m:
         # quick tier: a hash sample (1 in sample_m, chosen by VERIF_SEED) of the two-constructor trees
         ctx.replay("Gen_Lang.tla", "Gen_Lang_m.cfg", h, ["--props", ",".join(props), "--sample", str(sample_m)], tag=pre + "Gen_Lang_m-sample", timeout=3400, xss="64m", xmx="12g")
@@ -222,11 +227,11 @@ def plan_C04(ctx):
                        "for the JSON analyses success means parseResult and valueClass != invalid; positions of CheckConstituenta are relative to '<alias>:==<definition>' (prefixLen)"]
     cfgs = ["Gen_C04_q.cfg", "Gen_C04_q2.cfg"] if ctx.quick else ["Gen_C04_t.cfg"]
     ctx.constants = {c: open(os.path.join(vcore.TLA, c)).read().split("SPECIFICATION")[0].split() for c in cfgs}
-    ctx.constants["asan"] = "every 6th case (by hash) in quick, all cases in thorough"
+    ctx.constants["asan"] = "every 6th case (by hash) in quick, every 3rd in thorough"
     for c in cfgs:
-        # all cases in the optimised build (faults, Post), and the sanitizer build on a hash-sample (quick) / on everything (thorough)
+        # all cases in the optimised build (faults, Post), and the sanitizer build on a hash-sample (1/6 quick, 1/3 thorough)
         ctx.replay("Gen_C04.tla", c, h, tag=c[:-4], timeout=3400, xss="64m")
-        ctx.replay("Gen_C04.tla", c, hs, ["--sample", "6"] if ctx.quick else [], tag="asan-" + c[:-4], timeout=3400, xss="64m")
+        ctx.replay("Gen_C04.tla", c, hs, ["--sample", "6"] if ctx.quick else ["--sample", "3"], tag="asan-" + c[:-4], timeout=3400, xss="64m")
     ctx.exhaustive = True
     src = ctx.path("c04-cases.txt")
     ctx.generate("Gen_C04.tla", "Gen_C04_q2.cfg", src, every=(40 if ctx.quick else 8))
